@@ -1033,9 +1033,16 @@ class Document:
             cut_text = "\n".join(cut_parts)
             remaining_text = "".join(remaining_parts)
 
-            # In case of a LINES selection, don't include the trailing newline.
+            # In case of a LINES selection, don't include the newline that
+            # terminates the last selected line. (When the selection goes up to
+            # the end of the text, there is no such newline: a trailing "\n" is
+            # then an empty last line that was selected as well.)
             if self.selection.type == SelectionType.LINES and cut_text.endswith("\n"):
-                cut_text = cut_text[:-1]
+                last = max(
+                    self.cursor_position, self.selection.original_cursor_position
+                )
+                if self.text.find("\n", last) >= 0:
+                    cut_text = cut_text[:-1]
 
             return (
                 Document(text=remaining_text, cursor_position=new_cursor_position),
